@@ -571,6 +571,16 @@ pub fn exec(c: &StreamCase, st: &mut Stats) -> Vec<Viol> {
             for it in &r.items {
                 st.note(&it.agree_key());
             }
+            // "... and always terminates": a liveness bound of the simulator hit inside the iterator is this
+            // property's business (a panic is C01's)
+            if let Some(Outcome::Liveness(what)) = r.abnormal.as_ref().or_else(|| r.items.iter().find(|o| matches!(o, Outcome::Liveness(_)))) {
+                out.push(mk(
+                    "iterator-not-terminated",
+                    format!("[{}] {}: {what}", describe(), if plain { "read" } else { "read_with_options" }),
+                    Some(ch),
+                ));
+                continue;
+            }
             if r.abnormal.is_some() || r.items.iter().any(|o| matches!(o, Outcome::Panic(_) | Outcome::Liveness(_))) {
                 st.bump("skipped.abnormal(C01)");
                 continue;
@@ -784,6 +794,10 @@ pub fn kinds_for(target: Target) -> Vec<DocSpec> {
     ];
     let specific: Vec<DocSpec> = match target {
         Target::Cfg => vec![
+            // a malformed anchor / alias token behind a type-level error: met while the failed document is
+            // skipped, it is a syntax error (the parser repeats it for ever) and ends the iteration
+            d("type-then-bad-anchor-token", "name: [no]\nn: &\n"),
+            d("type-then-bad-alias-token", "name: [no]\nlist: [1, *]\n"),
             d("valid-a", "name: a\nn: 1\n"),
             d("valid-b", "{name: bé, n: 2, list: [1, 2]}\n"),
             d("anchors", "name: &x ank\nn: 3\nlist: [&y 4, *y]\n"),
@@ -875,6 +889,19 @@ pub fn kinds_for(target: Target) -> Vec<DocSpec> {
             d("type-early", "[1, 2]\n"),
             d("empty-map", "{}\n"),
         ],
+        Target::UntilX => vec![
+            d("valid-a", "a: 0\nx: 1\n"),
+            d("valid-b", "{x: 1}\n"),
+            // the key comes from a merged mapping: it is delivered after the end of the mapping has been read
+            d("x-merged", "<<: {x: 1, y: 2}\na: 0\n"),
+            d("x-merged-alias", "m: &m {x: 1, y: 2}\nz:\n  q: 1\n<<: *m\n"),
+            d("x-merged-twice", "<<: [{x: 1}, {x: 2, w: 3}]\nb: 0\n"),
+            d("x-first-of-two", "x: 1\nb: 2\n"),
+            d("no-x", "a: 1\nb: 2\n"),
+            d("anchors", "a: &x 1\nx: 2\n"),
+            DocSpec { alias_of_earlier: true, ..d("alias-earlier", "x: *x\n") },
+            d("type-early", "[1, 2]\n"),
+        ],
         Target::LenientRoot => vec![
             d("valid-a", "5\n"),
             d("valid-b", "-7\n"),
@@ -934,7 +961,8 @@ pub fn kinds_for(target: Target) -> Vec<DocSpec> {
     v
 }
 
-pub const TARGETS: [Target; 11] = [
+pub const TARGETS: [Target; 12] = [
+    Target::UntilX,
     Target::Cfg,
     Target::VecI,
     Target::Tup,
